@@ -85,10 +85,12 @@ Fixpoint val_eq (fuel : nat) (w : world) (a b : val) : bool :=
   end.
 Definition eq_fuel : nat := 4.
 
+(* an Enum member is represented by VStr (0 :: name): it compares equal by name, is truthy, and has no order in Python *)
+Definition is_enum (s : list Z) : bool := match s with 0 :: _ => true | _ => false end.
 Definition py_lt (a b : val) : option bool :=
   match a, b with
   | VInt x, VInt y => Some (x <? y)
-  | VStr x, VStr y => Some (zlist_ltb x y)
+  | VStr x, VStr y => if is_enum x || is_enum y then None else Some (zlist_ltb x y)
   | _, _ => None                                  (* TypeError: '<' not supported between ... *)
   end.
 Definition py_cmp (w : world) (op : cmpop) (a b : val) : res bool :=
